@@ -178,6 +178,7 @@ def begin(chk, crate):
     # value: resolve a multiply assigned variable through its definitions
     from discharge import unq
     val = unq(f.ex.operand(it["args"][2]))          # `x?` / `x.ok_or(..)?` carry the value of x
+    val = unq(f.ex.select_variant(val))             # ... returned by an inlined helper as `Ok(x)`
     vals = expand_var(f, val)
     streams = [t for bb, t in f.stream_calls() if f.seq_of(t) == "zvt::sequences::Reservation"]
     good = bool(vals)
